@@ -443,11 +443,13 @@ def _solver_job(item):
 def solver_cases(tier):
     out = []
     maxn = 2 if tier == "quick" else 3
+    sk = SK if tier != "quick" else [k for k in SK if k not in ("x>s1", "y>u6", "!c", "x<u2")]
     for n in range(1, maxn + 1):
-        for labels in itertools.permutations(SK, n):
+        for labels in itertools.permutations(sk, n):
             if n == 3 and not (labels[0] < labels[1]):
                 continue
-            for pre in ("none", "sat", "eval", "min") if n < 3 else ("none", "eval"):
+            pres = ("none", "sat", "eval", "min") if (n < 3 and tier != "quick") else ("none", "eval")
+            for pre in pres:
                 out.append((labels, pre))
     return out
 
